@@ -383,6 +383,38 @@ def rule_tm5(ctx: Ctx) -> RuleResult:
             if not fw:
                 continue
             r.groups.add((spec.qualname, cfg_str(cfg), len(its)))
+            # growth, idiom 2: table.extend([filler] * count), once per table, with the same count
+            exts = [e for e in p.trace if e.k == "mutate" and e.method == "extend" and e.base[0] == "free" and e.args
+                    and e.args[0][0] == "binop" and e.args[0][1] == "Mult"]
+            if not its and exts:
+                from .st import join_tables
+                tables = join_tables(ctx, spec)
+
+                def count_of(a0):
+                    for x, y in ((a0[2], a0[3]), (a0[3], a0[2])):
+                        if x[0] == "list" and len(x) == 2:
+                            return y
+                    return None
+                cnts = {strip_uid(count_of(e.args[0])) if count_of(e.args[0]) is not None else None for e in exts}
+                by = {e.base[1] for e in exts}
+                grew = True
+                good = False
+                if by == tables and len(exts) == 2 and len(cnts) == 1 and None not in cnts:
+                    cnt = next(iter(cnts))
+                    q = rf(cnt)
+                    n_atoms = [x for x in subterms(cnt) if tm.is_count(x)]
+                    lens = [x for x in subterms(cnt) if x[0] == "call" and x[1] == ("builtin", "len") and x[2][0][0] == "free" and x[2][0][1] in tables]
+                    if q is not None and n_atoms and len(lens) == 1:
+                        N = RF(Poly.atom(strip_uid(n_atoms[0])))
+                        K = RF(Poly.atom(strip_uid(KEYIDX)))
+                        want = K.add(RF(Poly.const(1))).mul(N).add(RF(Poly.atom(lens[0])), -1)
+                        good = q.equals(want)
+                r.ob(good, lambda exts=exts: mk_finding(
+                    "TM-5", spec, "Create", cfg, p, "the join tables must each be extended once by (key[0] + 1) * n - len(table) slots; extensions: %s" % [e.brief() for e in exts],
+                    node=exts[0].node, extra="growth"))
+                guard = [e for e in p.trace if e.k == "decision" and any(x == branch for x in subterms(e.test))]
+                r.ob(bool(guard), lambda: mk_finding("TM-5", spec, "Create", cfg, p, "growth is not tied to the single branch that forwards the creation", extra="guard"))
+                continue
             if not its:
                 continue
             grew = True
